@@ -14,6 +14,9 @@ pub struct SimConfig {
     /// model std's writer-preferring RwLock (Linux futex implementation): once a writer is queued, new
     /// readers wait -- a recursive read lock then deadlocks. Half of the seeds run with it (swarm style).
     pub rwlock_writer_preference: bool,
+    /// reading the wall clock is a scheduling point for node tasks (half of the seeds): the thread can be
+    /// preempted between taking a timestamp (operation ids!) and using it
+    pub preempt_after_clock: bool,
 }
 
 impl SimConfig {
@@ -23,7 +26,12 @@ impl SimConfig {
             Some("unfair") => false,
             _ => kernel::mix(seed, 0x7277_6c6f_636b) & 1 == 1,
         };
-        SimConfig { seed, policy: Policy::Random, max_steps: 3_000_000, stack_size: 1 << 20, trace: false, rwlock_writer_preference }
+        let preempt_after_clock = match std::env::var("NUNSIM_CLOCK_PREEMPT").ok().as_deref() {
+            Some("on") => true,
+            Some("off") => false,
+            _ => kernel::mix(seed, 0x636c_6f63_6b70) & 1 == 1,
+        };
+        SimConfig { seed, policy: Policy::Random, max_steps: 3_000_000, stack_size: 1 << 20, trace: false, rwlock_writer_preference, preempt_after_clock }
     }
 }
 
@@ -62,6 +70,7 @@ where
     let mut k = Kernel::new(cfg.seed);
     k.max_steps = cfg.max_steps;
     k.set_policy(cfg.policy);
+    k.preempt_after_clock = cfg.preempt_after_clock;
     if cfg.trace {
         k.trace = Some(Vec::new());
     }
